@@ -31,6 +31,9 @@ ASSUMPTIONS = ["MinimiserSpec: scipy returns fun = objective(x) and x of the len
                "well-posed = whitened design matrix of full rank with condition number <= 1e4; NLL tolerance 1e-3 (absolute)",
                "parameter magnitudes inside the search box (log10|p| in [pmin,pmax] for log_opt with <=2 parameters, |p| <= pmax otherwise)",
                "the likelihood never returns NaN (ESR's classes map NaN to inf) for the statement 'minimum over ALL minimize calls'"]
+# tables whose committed version may stand in as a hand-written model when the translator cannot read the source;
+# value = the correspondence that then ties it to the code (common.prove / common.decide)
+FALLBACK = {'Optim': 'real optimise_fun under a scripted minimiser vs the Lean model (branch taken, back-transformed parameters, returned value)'}
 MODELLED = ["test_all.py:chi2_fcn", "test_all.py:optimise_fun"]
 
 TOL_NLL = 1e-3
